@@ -35,9 +35,10 @@ CHECKS = {
         ref='3/C02'),
     'C03': dict(
         cat='exploration',
-        technique='proposal-graph walk for no-ops/cycles with real mutators, '
-        'confirmation by real runs against a set: predicate, per-call '
-        'step/allocation budgets via sys.monitoring',
+        technique='proposal-graph search for no-ops/cycles/pumps with real '
+        'mutators in both replace-by-variable modes, confirmation by real '
+        'runs against a set: predicate, per-call step/allocation budgets via '
+        'sys.monitoring, bounded progress of real runs',
         text='Termination is monitored as three refutable bounded '
         'statements: no one-step no-op or short cycle among proposals '
         '(exhaustive to depth 2 on tiny seeds, random walks on larger), '
@@ -47,7 +48,9 @@ CHECKS = {
     'C04': dict(
         cat='exploration',
         technique='black-box exit-status and uncaught-traceback monitor on '
-        'the real executables over structure-fuzzed inputs and usage errors',
+        'the real executables over structure-fuzzed inputs and usage errors; '
+        'differential isolation oracle with exceptions injected into one '
+        'mutator',
         text='The real bin/ddsmt and python -m ddsmt are run on well-formed, '
         'structure-fuzzed and unbalanced inputs with permissive predicates '
         '(so ddSMT itself walks through ill-formed intermediates) and on all '
@@ -68,12 +71,16 @@ CHECKS = {
     'C06': dict(
         cat='fault_enumeration',
         technique='crash snapshot at every failpoint of every rewrite of the '
-        'output file, injected interrupts, real signals, live reader',
+        'output file, injected interrupts/kills, real signals, live reader, '
+        'strace rule, adoption-to-write promptness markers',
         text='At every LINE event inside write_smtlib_to_file the monitor '
         'reads the output file from disk (what a kill would leave and a '
         'reader would see) and compares it with the previous/next accepted '
         'input; interrupts are injected per point; SIGINT/SIGKILL at random '
-        'instants; a polling reader runs alongside.',
+        'instants; a polling reader runs alongside; a sample of runs under '
+        'strace must show only renames onto the output file; between the '
+        'adoption of a candidate and the rewrite no further result may be '
+        'consumed.',
         ref='3/C06'),
     'C07': dict(
         cat='exploration',
@@ -130,7 +137,8 @@ CHECKS = {
     'C13': dict(
         cat='exploration',
         technique='id-uniqueness invariant hooked at TaskGenerator/Producer '
-        'construction in real runs; reduplicate vs model on DAGs',
+        'construction in real runs (incl. runs in which fresh declarations '
+        'are accepted); reduplicate vs model on DAGs',
         text='In real runs every list handed to a task generator is checked '
         'for repeated node ids; reduplicate is compared with a model on '
         'generated DAGs with arbitrary sharing.',
@@ -147,7 +155,8 @@ CHECKS = {
     'C15': dict(
         cat='exploration',
         technique='applicability / lexical-closure / declaration oracle on '
-        'every proposal of every mutator',
+        'every proposal of every mutator (API plane) and on every candidate '
+        'of real hierarchical runs (launcher hook)',
         text='Every proposal of every mutator on generated scripts (and '
         'their partially reduced forms) is applied and rendered; keys must '
         'exist, the result must re-parse to itself, introduced declarations '
@@ -156,7 +165,8 @@ CHECKS = {
     'C16': dict(
         cat='exploration',
         technique='generator typing as ground truth vs get_sort/get_bv_width '
-        'at every term position',
+        'at every term position; cvc5 as reference sort checker for '
+        'same-sort replacements',
         text='Typed script generator knows the sort of every subterm; '
         'get_sort/get_bv_width must answer unknown or that sort.',
         ref='3/C16'),
